@@ -24,6 +24,8 @@ SHARD = 250
 RULE = ('scripted workchain (outline x step scripts registering 1-4 awaitables per step by to_context and/or returned ToContext) '
         'x outcome of every awaited item (value / exception / killed child / cancelled) x completion order x placement of every '
         'completion between individual loop callbacks; real WorkChain classes, real child processes for a subset; '
+        'plus an implementation-only family (KImplOnly in Corr_C10: not compared with the model, judged by the oracle): one pause() '
+        'at every position of every schedule of 1-2 awaited items, play() after 0..n further events or at the end, then drained; '
         'non-trivial = the chain entered WAITING for at least one awaitable and at least one awaited item completed; '
         'distinct = distinct (program, future table, schedule)')
 ASSUMPTIONS = ['no pause / play / kill / resume request reaches the workchain while it waits (those races are property C06)',
@@ -79,11 +81,13 @@ def c_ctx(items):
 
 
 def to_coq(case, obs):
+    if case.get('impl_only'):
+        return 'KImplOnly'          # pause/play family: judged by the oracle on the implementation, the model has no such events
     steps = c_list(['(%s, %s, %s)' % (c_nat(s['n']), c_ctx(s['ctx']), c_list([c_nat(k) for k in s['done']])) for s in obs['steps']])
     after = c_list([c_opt(a, lambda p: '(%s, %s)' % (c_nat(p[0]), c_nat(p[1]))) for a in obs['after']])
     final = '(%s, %s)' % (c_nat(obs['final'][0]), c_opt(obs['final'][1], c_exn))
     calls = c_list(['(CStep %s)' % c_str(n) if k == 's' else '(CPred %s)' % c_str(n) for k, n in obs['calls']])
-    return '(mk_c10 %s %s %s %s %s %s %s %s %s %s)' % (
+    return '(KModel (mk_c10 %s %s %s %s %s %s %s %s %s %s))' % (
         c09.coq_instr(case['outline']), c_list([c_bool(b) for b in case['preds']]),
         c_list([c_script(s) for s in case['scripts']]), c_list([c_event(e) for e in obs['mevents']]),
         steps, after, final, c_ctx(obs['ctx']), c_list([c_exn(e) for e in obs['errs']]), calls)
@@ -328,6 +332,7 @@ def run_impl(case):
         task = s.loop.create_task(wc.step_until_terminated())
         mevents, after, errs = [], [], []
         touched = set()
+        ctl_errors = []
 
         def observe(evs):
             for ctxd in s.loop_errors:
@@ -377,13 +382,31 @@ def run_impl(case):
                     else:
                         c.resume(e[2])
                     observe(h.newly_done())
+            elif k in ('pause', 'play'):
+                # control requests of the pause/play family (impl-only cases); their own races are C05/C06's subject,
+                # an exception escaping from the request itself is recorded, not judged here
+                if not wc.has_terminated():
+                    try:
+                        wc.pause() if k == 'pause' else wc.play()
+                    except Exception as exc:  # noqa: BLE001
+                        ctl_errors.append(coqio.canon_exception(exc))
+                    observe(h.newly_done())
             else:
                 raise ValueError(e)
-        # drain: run callbacks until nothing is ready (bounded), so that the final state is a quiescent one
-        for _ in range(case.get('drain', 40)):
-            if not s.ready():
-                break
-            real_tick()
+        # drain: run callbacks until nothing is ready (bounded), so that the final state is a quiescent one; in the
+        # pause/play family every pause is eventually followed by play (then drained again)
+        for _round in range(4):
+            for _ in range(case.get('drain', 40)):
+                if not s.ready():
+                    break
+                real_tick()
+            if case.get('impl_only') and not wc.has_terminated() and wc.paused:
+                try:
+                    wc.play()
+                except Exception as exc:  # noqa: BLE001
+                    ctl_errors.append(coqio.canon_exception(exc))
+                continue
+            break
         state = wc.state.value
         exc = coqio.canon_exception(wc.exception()) if state == 'excepted' else None
         steps = [dict(st) for st in h.steps]
@@ -391,7 +414,7 @@ def run_impl(case):
                 'ctx': jcopy([[k, v] for k, v in wc.ctx.__dict__.items()]), 'errs': errs, 'calls': h.calls,
                 'outcomes': {str(k): v for k, v in h.outcomes.items()}, 'done_order': list(h.done_order),
                 'fates': {str(k): c.state.value for k, c in h.children.items()},
-                'quiescent': not s.ready()}
+                'quiescent': not s.ready(), 'ctl_errors': ctl_errors}
     finally:
         s.close()
 
@@ -471,8 +494,17 @@ def nontrivial(case, obs):
 def distribution(cases, obs):
     d = {'waits': 0, 'next_step_started_after_wait': 0, 'excepted_by_awaitable': 0, 'still_waiting': 0, 'loop_errors': 0,
          'with_children': 0, 'with_cancel': 0, 'outcome_val': 0, 'outcome_exn': 0, 'outcome_killed': 0, 'model_events': 0,
-         'already_done_at_registration': 0, 'duplicate_key_or_future': 0}
+         'already_done_at_registration': 0, 'duplicate_key_or_future': 0,
+         'impl_only_pause_play_cases': 0, 'impl_only_pause_while_waiting': 0, 'impl_only_excepted': 0, 'impl_only_finished': 0,
+         'impl_only_ctl_errors': 0}
     for c, o in zip(cases, obs):
+        if c.get('impl_only'):
+            d['impl_only_pause_play_cases'] += 1
+            d['impl_only_pause_while_waiting'] += any(st['waits'] for st in o['steps'])
+            d['impl_only_excepted'] += o['final'][0] == 3
+            d['impl_only_finished'] += o['final'][0] == 2
+            d['impl_only_ctl_errors'] += len(o.get('ctl_errors', []))
+            continue
         ws = [i for i, st in enumerate(o['steps']) if st['waits'] and st['regs']]
         d['waits'] += len(ws)
         d['next_step_started_after_wait'] += sum(1 for i in ws if i + 1 < len(o['steps']))
@@ -623,6 +655,40 @@ def random_case(rng, children):
     return {'outline': c09.norm(outline), 'preds': preds, 'scripts': scripts, 'futs': table, 'events': events}
 
 
+def with_pause_play(seq, play_offsets):
+    """every placement of one pause() in seq, followed by play() after `off` further events (None: only the final play)"""
+    n = len(seq)
+    for i in range(n + 1):
+        for off in play_offsets:
+            if off is None or i + off >= n:
+                yield seq[:i] + [['pause']] + seq[i:]
+                if off is not None:
+                    break
+            else:
+                yield seq[:i] + [['pause']] + seq[i:i + off] + [['play']] + seq[i + off:]
+
+
+def pause_play_cases(rng, thorough):
+    """pause()/play() placed between the completions and the loop callbacks; 1-2 awaited items, value/exception mixes,
+    every completion order; always completed by play + drain.  Judged by the oracle on the implementation only."""
+    out = []
+    for m in (1, 2):
+        pairs = [(KEYS[i], i) for i in range(m)]
+        nt = m + 3 if m == 1 else m + 2
+        offs = list(range(0, 8)) + [None] if (thorough or m == 1) else [0, 1, 2, None]
+        for kinds in itertools.product(['val', 'exn'], repeat=m):
+            for order in itertools.permutations(range(m)):
+                completes = [['done', k, outcome_for(k, kinds[k])] for k in order]
+                for base in interleavings(completes, nt):
+                    for seq in with_pause_play(base, offs):
+                        if m == 2 and not thorough and rng.random() > 0.5:
+                            continue
+                        style = rng.choice(['call', 'ret', 'mixed'])
+                        out.append({'outline': linear(3), 'preds': [], 'futs': [['plain']] * m, 'events': seq, 'impl_only': True,
+                                    'scripts': [reg_script(pairs, style), {'acts': [], 'ret': ['none']}]})
+    return out
+
+
 def generate(tier, rng, around=None):
     cases = []
     thorough = tier == 'thorough'
@@ -692,6 +758,8 @@ def generate(tier, rng, around=None):
         cases.append(random_case(rng, False))
     for _ in range(3000 if thorough else 400):
         cases.append(random_case(rng, True))
+    # pause()/play() between completions and callbacks: implementation only (the barrier model has no such events)
+    cases += pause_play_cases(rng, thorough)
     return {'cases': cases, 'exhaustive': True,
             'scope': 'one waiting step with m <= 2 plain futures (m <= 3 in thorough): both registration styles + mixed x every outcome mix '
                      '(value / exception) x every completion order x every placement among the first m+3 loop callbacks; sampled beyond'}
